@@ -579,6 +579,15 @@ func (sc *SubCache[EntityT, ExcerptT, CacheT]) MergeAll(remote string) <-chan en
 				// might as well keep them in memory
 				sc.cached[result.Id] = cached
 				sc.mu.Unlock()
+
+				// keep the search index in step with the merged entity
+				index, err := sc.repo.GetIndex(sc.namespace)
+				if err == nil {
+					err = index.IndexOne(result.Id.String(), sc.makeIndexData(cached))
+				}
+				if err != nil {
+					out <- entity.NewMergeError(err, result.Id)
+				}
 			}
 		}
 
